@@ -62,6 +62,8 @@ type msgDef struct {
 	part *partDef
 	src  proto.Message // deep copy of the request as fed
 	pack *packDef
+	// optional: the statement admits that this message is filtered (its object counts as dropped on both sides by then)
+	optional bool
 	// filled by the oracle
 	emitted int
 }
